@@ -4,7 +4,7 @@ import ast
 from .. import sym
 from ..evalfn import SELF
 from ..sym import canon
-from . import core_rules
+from . import core_rules, tree_rules
 from .algo_equiv import check_equiv
 from .common import ALGOS, BACKTEST, CORE, G, plain, short
 
@@ -213,3 +213,4 @@ def run(chk):
     n = core_rules.defer_rules(chk, "C18", modules=(ALGOS,), only_hosts=("ReplayTransactions.__call__", "SimulateRFQTransactions.__call__"))
     chk.floor_count("C18.R4:deferred calls in replay algos", n, 2)
     first_row_of_possibly_empty(chk)
+    tree_rules.full_name_members(chk, "C18")
